@@ -369,7 +369,7 @@ def gen_edit_op(rng, nm, lib, libnodes):
                     'camera_set', 'asset', 'contributor_set', 'matnode_inputs', 'geomnode_materials', 'add', 'add_source',
                     'swap_positions', 'swap_positions', 'effect_set', 'effect_set', 'replace_asset', 'replace_asset',
                     'replace_object', 'replace_object', 'replace_object', 'replace_scene',
-                    'dup_source', 'dup_source', 'rename_source_reuse', 'dup_object', 'dup_object', 'dup_node',
+                    'dup_source', 'dup_source', 'rename_source_reuse', 'source_data', 'source_data', 'dup_object', 'dup_object', 'dup_node',
                     'effect_add_params', 'geomnode_materials', 'matnode_inputs', 'set_scene'])
     i, j = rng.randrange(8), rng.randrange(8)
     if k == 'rename':
@@ -394,7 +394,10 @@ def gen_edit_op(rng, nm, lib, libnodes):
     if k == 'scene_node':
         return [k, i, rng.randrange(3), gen_node(rng, nm, lib, 1, libnodes)]
     if k == 'source_data':
-        return [k, i, j, rng.randint(1, 5)]
+        # the Python form of the replacement array (shaped / flat / another width) and, sometimes,
+        # a components tuple of another arity
+        return [k, i, j, rng.randint(1, 5), rng.choice(['shaped', 'flat', 'flat', 'wide']),
+                rng.choice([None, None, ['S', 'T'], ['X', 'Y', 'Z'], ['R', 'G', 'B', 'A'], ['W']])]
     if k == 'swap_positions':
         return [k, i, nm.fresh()]
     if k == 'replace_asset':
@@ -510,7 +513,7 @@ def gen_scratch(rng, n):
             for _ in range(rng.randint(0, 3)):
                 ops += expand(rng, gen_edit_op(rng, nm, lib, libnodes))
     ops.append(['write'])
-    return {'kind': 'scratch', 'ops': ops, 'pure': pure}
+    return {'kind': 'scratch', 'ops': ops, 'pure': pure, 'numform': rng.choice(['py', 'py', 'f32', 'f64'])}
 
 
 def gen_edit(rng, n, base_name):
@@ -528,7 +531,7 @@ def gen_edit(rng, n, base_name):
     if rng.random() < 0.3:
         ops += gen_library_swap(rng, nm)
     ops.append(['write'])
-    return {'kind': 'edit', 'base_name': base_name, 'ops': ops, 'pure': False}
+    return {'kind': 'edit', 'base_name': base_name, 'ops': ops, 'pure': False, 'numform': rng.choice(['py', 'f32', 'f64'])}
 
 
 # --------------------------------------------------------------------------- mutations for cross-validation
@@ -915,9 +918,9 @@ def schema_signature(msg):
     return 'C04:schema:%s%s:%s' % (el, '@' + at if at else '', kind), text[:200]
 
 
-VARIANT_BASES = ['corpus:rich_base.dae', 'corpus:sparse_base.dae']
+VARIANT_BASES = ['corpus:rich_base.dae', 'corpus:sparse_base.dae', 'corpus:strip_base.dae']
 CORPUS_BASES = ['corpus:rich_base.dae', 'corpus:rich_base.dae+split', 'duck_triangles.dae+split', 'corpus:sparse_base.dae',
-                'corpus:sparse_base.dae']
+                'corpus:sparse_base.dae', 'corpus:strip_base.dae']
 
 
 def base_path(name):
@@ -1004,7 +1007,7 @@ def run(ctx):
     ctx.log('schema-valid shipped bases: %s' % valid_bases)
 
     # ---- (b) documents written by the implementation
-    nscratch, nedit = (120, 90) if quick else (1600, 1200)
+    nscratch, nedit = (100, 80) if quick else (1600, 1200)
     recipes = [gen_scratch(rng, i) for i in range(nscratch)]
     recipes += [gen_edit(rng, nscratch + i, rng.choice(valid_bases)) for i in range(nedit)] if valid_bases else []
     cdir = os.path.join(core.VERIF, 'corpus', 'C04')
@@ -1040,7 +1043,7 @@ def run(ctx):
     docs = []       # (recipe index, doc index, bytes, scratch-conformance wanted)
     raised = []
     odocs = []      # variant outputs checked by the direct oracle only (xmllint + Python bookkeeping)
-    in_coq = set(rng.sample(range(variant_first, len(recipes)), min(30 if quick else 400, len(recipes) - variant_first)))
+    in_coq = set(rng.sample(range(variant_first, len(recipes)), min(20 if quick else 400, len(recipes) - variant_first)))
     for ri, (r, res) in enumerate(zip(recipes, results)):
         if not res['ok']:
             raised.append({'recipe_index': ri, 'error': res['error']})
@@ -1080,7 +1083,7 @@ def run(ctx):
     xstats = {'pool': 0, 'valid': 0, 'invalid': 0, 'by_mutation': {}}
     disagreements = []
     if have_xl:
-        nmut = 150 if quick else 1500
+        nmut = 110 if quick else 1500
         seeds = [d for (_, _, d, _), xr in zip(docs, xres) if xr[0]]
         for i in range(nmut):
             if not seeds:
